@@ -165,6 +165,11 @@ pub mod proofs {
 
     #[kani::proof]
     #[kani::unwind(6)]
+    pub fn c42_history_1_nofail() {
+        history::<1>(false, false)
+    }
+    #[kani::proof]
+    #[kani::unwind(6)]
     pub fn c42_history_2_nofail() {
         history::<2>(false, false)
     }
